@@ -146,9 +146,9 @@ def _gen(ctx, salt, npairs, lengths, n_mismatch, n_fs, n_gv):
 
 def cases(ctx):
     if ctx.tier == "quick":
-        yield from _gen(ctx, "q", 16, (0, 1, 2, 4), 4, 150, 150)
+        yield from _gen(ctx, "q", 60, (0, 1, 2, 3, 5), 5, 600, 600)
     else:
-        yield from _gen(ctx, "t", 80, (0, 1, 2, 3, 4, 5, 6), 10, 1500, 1500)
+        yield from _gen(ctx, "t", 320, (0, 1, 2, 3, 4, 5, 6), 10, 6000, 6000)
 
 
 def case_key(c):
